@@ -98,3 +98,9 @@ META["C11"] = {
     "note": "Fake process controllers invoke whenDone hooks synchronously so that the fault point is deterministic; the client contract (a callback for every accepted request) is assumed from C10.",
     "technique": "property-based fault injection (rapid) against a reference outcome model",
 }
+
+META["C04"] = {
+    "text": "The verdict and accounting of a run are checked (1) as a complete truth table over outcome kind x marking x peer feedback for up to 3 (quick) / 4 (thorough) cases through the real results API against a model of the statement, with totals and FAILED/INFO naming parsed from the printed report, plus random larger tables; and (2) through the exported Run with a re-executed scripted client process realising per-case results and process fates (exit 0/1 after k of n requests, exit while the server starts, garbage, duplicate answers, real reference-server feedback) against in-process reference servers. Exploration with an exhaustively enumerated table.",
+    "note": "An external client's early exit is only noticed by the runner at its next write (os/exec semantics), so the could-not-run branch of report() is decided by the table unit, not by the process unit; silent long-running clients are bounded by the runner's 20 s timeout and avoided.",
+    "technique": "bounded-exhaustive truth-table enumeration + property-based process-fate injection (rapid) against a reference verdict model",
+}
